@@ -46,6 +46,10 @@ def parse_and_validate_assignment(indices, array_shape, value_shape):
     # Reformat input indices
     indices, implied_shape, reverse, implied_shape_positions = parse_assignment_indices(indices, array_shape)
 
+    # ``reverse`` names dimensions of the array; below it is used on the
+    # dimensions of the implied shape, which integer indices are not part of.
+    reverse = [implied_shape_positions.index(i) for i in reverse if i in implied_shape_positions]
+
     # Empty slices can only be assigned size 1 values
     if 0 in implied_shape and value_shape and max(value_shape) > 1:
         raise ValueError(
